@@ -147,6 +147,11 @@ def fixtures():
     def huge_photon(d):
         d.photon.array = np.full(d.geometry.shape, 1.0e19)
 
+    def pixel_ramp(d):
+        # nghxrg normalises its bias pattern by the spread of the pixel array itself: a flat array gives NaN everywhere
+        r, c = d.geometry.shape
+        d.pixel.array = 100.0 + (np.arange(r * c, dtype=float).reshape(r, c) * 7.0) % 53.0
+
     cg, cm, pc, cc = "pyxel.models.charge_generation.", "pyxel.models.charge_measurement.", "pyxel.models.photon_collection.", "pyxel.models.charge_collection."
     return [
         ("shot_noise/poisson", "CCD", photon, pc + "shot_noise", {"type": "poisson"}),
@@ -166,7 +171,7 @@ def fixtures():
         # a fallback that draws outside the seeded region would make it "work" and is then judged like any other model
         ("shot_noise/poisson-huge-flux", "CCD", huge_photon, pc + "shot_noise", {"type": "poisson"}),
         # later sample of a multi-readout schedule: the kTC branch of nghxrg only draws when int(time / time_step) > 1
-        ("nghxrg/ktc-later-readout", "CMOS", pixel, cm + "nghxrg",
+        ("nghxrg/ktc-later-readout", "CMOS", pixel_ramp, cm + "nghxrg",
          {"_shape": (16, 16), "_times": [1.0, 2.0, 3.0], "_step_index": 2, "n_output": 1, "reference_pixel_border_width": 0,
           "noise": [{"ktc_bias_noise": {"ktc_noise": 10.0, "bias_offset": 20.0, "bias_amp": 2.0}}, {"white_read_noise": {"rd_noise": 5.0, "ref_pixel_noise_ratio": 0.8}}]}),
         ("charge_deposition", "CCD", nothing, cg + "charge_deposition", {"flux": 100.0, "step_size": 1.0, "energy_mean": 1.0, "energy_spread": 0.1, "stopping_power_curve": str(common.REPO / "pyxel/models/charge_generation/data/protons-in-silicon_stopping-power.csv")}),
